@@ -188,6 +188,49 @@ func litmusPrograms() []litmus {
 			}
 			return inst([]func(){f, f}, func() string { return "ok" })
 		}},
+		{name: "channel-of-capacity-1", outcomes: []string{"6"}, make: func() *sched.Instance {
+			ch := make(chan int, 1)
+			sum := 0
+			prod := func() {
+				for i := 1; i <= 3; i++ {
+					zvsync.Send(ch, i)
+				}
+				close(ch)
+			}
+			cons := func() {
+				for {
+					v, ok := zvsync.Recv(ch)
+					if !ok {
+						return
+					}
+					sum += v
+				}
+			}
+			return inst([]func(){prod, cons}, func() string { return fmt.Sprint(sum) })
+		}},
+		{name: "send-while-holding-the-lock-the-receiver-needs", outcomes: []string{"deadlock"}, deadlock: true, make: func() *sched.Instance {
+			// the producer keeps a lock while it sends more than the channel holds; the consumer takes the lock between receives
+			var mu zvsync.Mutex
+			ch := make(chan int, 1)
+			prod := func() {
+				mu.Lock()
+				for i := 1; i <= 3; i++ {
+					zvsync.Send(ch, i)
+				}
+				mu.Unlock()
+				close(ch)
+			}
+			cons := func() {
+				for {
+					if _, ok := zvsync.Recv(ch); !ok {
+						return
+					}
+					mu.Lock()
+					mu.Unlock()
+				}
+			}
+			return inst([]func(){prod, cons}, func() string { return "done" })
+		}},
 		{name: "trylock-and-tryacquire", outcomes: []string{"1", "2"}, make: func() *sched.Instance {
 			var mu zvsync.Mutex
 			sem := zvsync.NewWeighted(1)
